@@ -24,6 +24,7 @@ EXPLANATION = ("theorems (Lean, mirror of the explainer after the fix: commits):
 ASSUMPTIONS = ["partial: fragment explFrag (no since/until/precedes - the explainer raises on them -, no rise/fall); iff/xor: known finding F40",
                "interval_union (merging of interval lists) is not mirrored: the model keeps un-merged lists and position sets are compared"]
 VARS = ["a", "b"]
+VARS3 = ["a", "b", "c"]
 ALLOW = {"arith", "cmp", "bool", "not", "past_nr", "future", "ufuture", "bpast", "bfuture"}
 
 
@@ -83,6 +84,28 @@ def gen_pair(rng, g, i):
         f = ("u", "not", f)
     elif k == 2:
         f = ("b", rng.choice(["and", "or", "implies"]), f, build(rng, g, rng.choice(CONNECTIVES), g.pred))
+    return f
+
+
+TEMPORAL = [c for c in CONNECTIVES if c[0] in ("t1", "tb1")]
+BOOLS = [("b", "and"), ("b", "or"), ("b", "implies")]
+
+
+def gen_triple(rng, g, i):
+    """Systematic stream: temporal operator over a Boolean combination that contains another temporal operator below a second
+    connective - T1(B1(pred, B2(pred, T2(pred)))) - so that the inner operator is explained on several disjoint intervals."""
+    t1 = TEMPORAL[i % len(TEMPORAL)]
+    t2 = TEMPORAL[(i // len(TEMPORAL)) % len(TEMPORAL)]
+    b1 = BOOLS[(i // len(TEMPORAL) ** 2) % 3]
+    b2 = BOOLS[(i // (3 * len(TEMPORAL) ** 2)) % 3]
+    inner = build(rng, g, t2, g.pred)
+    mid = ("b", b2[1], g.pred(), inner) if rng.random() < 0.5 else ("b", b2[1], inner, g.pred())
+    if rng.random() < 0.25:
+        mid = ("u", "not", mid)
+    body = ("b", b1[1], g.pred(), mid) if rng.random() < 0.5 else ("b", b1[1], mid, g.pred())
+    f = build(rng, g, t1, lambda: body)
+    if rng.random() < 0.3:
+        f = ("u", "not", f)
     return f
 
 
@@ -217,13 +240,17 @@ def explore(ctx, rng, count):
         nv = rng.choice([1, 1, 2])
         g = EGen(rng, VARS[:nv], ALLOW, max_bound=rng.choice([1, 2, 3, 5]), consts=(0.0, 1.0, 2.0))
         g.iffxor = rng.random() < 0.4
-        if i % 2 == 0:
-            f = gen_pair(rng, g, i // 2 + ctx.seed * 7919)
+        if i % 3 == 0:
+            f = gen_pair(rng, g, i // 3 + ctx.seed * 7919)
             ctx.count("gen:pairs")
+        elif i % 3 == 1:
+            g.vars = VARS3[:rng.choice([2, 3])]
+            f = gen_triple(rng, g, i // 3 + ctx.seed * 104729)
+            ctx.count("gen:triples")
         else:
             f = g.formula(rng.choice([2, 3, 4]))
             ctx.count("gen:random")
-        n = rng.randint(1, 12)
+        n = rng.randint(1, 12) if i % 3 != 1 else rng.randint(4, 12)
         data = gen_data(rng, F.variables(f) or ["a"], n)
         if disc.known_region(ctx, {"f": f}, REGIONS):
             ctx.skipped_known += 1
@@ -244,7 +271,104 @@ def explore(ctx, rng, count):
                 return
 
 
+# ------------------------------------------------------------------------------- rule-level correspondence
+def gen_good_intervals(rng, n):
+    """Interval lists of the shape the explainer passes around: begins and ends non-decreasing, inside the trace; maximal runs
+    of a random position set, possibly widened / shifted the way the bounded operators do (which can make them overlap)."""
+    sel = [rng.random() < rng.choice([0.3, 0.5, 0.8]) for _ in range(n)]
+    runs, cur = [], None
+    for t in range(n):
+        if sel[t] and cur is None:
+            cur = t
+        if not sel[t] and cur is not None:
+            runs.append([cur, t - 1])
+            cur = None
+    if cur is not None:
+        runs.append([cur, n - 1])
+    k = rng.random()
+    if k < 0.3 and runs:
+        a = rng.randint(0, 2)
+        c = a + rng.randint(0, 2)
+        runs = [[min(b + a, n - 1), min(e + c, n - 1)] for b, e in runs]
+    elif k < 0.5 and runs:
+        a = rng.randint(0, 2)
+        c = a + rng.randint(0, 2)
+        runs = [[max(b - c, 0), max(e - a, 0)] for b, e in runs]
+    return runs
+
+
+def impl_explain_at(text, vs, data, n, ivs, flag):
+    def go():
+        from rtamt.explanation.ltl.discrete_time.explainer import Explanations
+        spec = impl.make_spec("offd", text, vs)
+        spec.parse()
+        ds = {"time": list(range(n))}
+        ds.update({v: list(data[v]) for v in vs})
+        spec.evaluate(ds)
+        ex = spec.explainer
+        ex.spec = spec.ast
+        ex.explanations = Explanations()
+        ex.visit(spec.ast.specs[0], [[list(i) for i in ivs], flag])
+        return {v: [list(i) for i in ex.explanations.get(v, [])] for v in vs}
+    return impl.guarded(go)
+
+
+def rule_stream(ctx, rng, count):
+    """Every propagation rule of the explainer against its mirror: the real visitor is started on a one- or two-operator
+    formula with an arbitrary well-formed interval list and polarity (not only [[0,0]] / violated), and the positions it
+    reports for the variables are compared with `explain sigma n phi I flag` of the model."""
+    cases = []
+    for i in range(count):
+        g = EGen(rng, VARS, ALLOW, max_bound=rng.choice([1, 2, 3]), consts=(0.0, 1.0, 2.0))
+        g.iffxor = False
+        op = CONNECTIVES[i % len(CONNECTIVES)]
+        leaf = (lambda: ("v", rng.choice(VARS))) if rng.random() < 0.5 else g.pred
+        f = build(rng, g, op, leaf)
+        if rng.random() < 0.35:
+            f = build(rng, g, rng.choice(CONNECTIVES), lambda: f if rng.random() < 0.7 else g.pred())
+        n = rng.randint(1, 10)
+        vs = F.variables(f) or ["a"]
+        data = gen_data(rng, vs, n)
+        cases.append((f, n, vs, data, gen_good_intervals(rng, n), rng.random() < 0.5))
+    lines = []
+    for f, n, vs, data, ivs, flag in cases:
+        lines.append("explainat | %s | %d | %d | %s | %s" % (F.to_proto(f), n, 1 if flag else 0, " ".join("%d-%d" % (b, e) for b, e in ivs),
+                                                           disc.sigs(data)))
+    outs = common.driver_run(lines)
+    for (f, n, vs, data, ivs, flag), mo in zip(cases, outs):
+        ctx.evaluations += 1
+        ctx.count("rule:" + ":".join(str(x) for x in f[:2]) + ("/sat" if flag else "/unsat"))
+        text = "out = " + F.to_text(f)
+        out = impl_explain_at(text, vs, data, n, ivs, flag)
+        rep = {"kind": "rule", "spec": text, "formula": F.to_proto(f), "data": data, "n": n, "intervals": ivs, "flag": flag, "impl": out,
+               "model": mo}
+        if out[0] != "ok":
+            ctx.diffs.append(Violation("explainer visitor raised %r on %s started with %r / %s" % (out[1:], text, ivs, flag), rep,
+                                       failing_input=False, stream="expl/rules"))
+            continue
+        pos = reported_positions(out[1], n)
+        if not mo.startswith("ok"):
+            ctx.diffs.append(Violation("mirror rejects %s: %s" % (text, mo), rep, failing_input=False, stream="expl/rules"))
+            continue
+        mpos = set()
+        for item in mo[2:].split(";"):
+            item = item.strip()
+            if item:
+                x, ts = item.split(":")
+                mpos |= {(x, int(t)) for t in ts.split(",") if t}
+        if pos != mpos:
+            ctx.diffs.append(Violation("explainer started on %s with intervals %r (explain why %s) reports %r, its mirror %r"
+                                       % (text, ivs, "satisfied" if flag else "violated", sorted(pos), sorted(mpos)), rep,
+                                       failing_input=False, stream="expl/rules"))
+            if len(ctx.diffs) >= 5:
+                return
+        else:
+            ctx.traces_validated += 1
+
+
 def replay(ctx, obj):
+    if obj.get("kind") == "rule":
+        return True, "rule-level correspondence case (not a property violation by itself)"
     import random
     f = F.from_proto(obj["formula"])
     data = {k: [float(x) for x in v] for k, v in obj["data"].items()}
@@ -263,7 +387,9 @@ def replay(ctx, obj):
 
 
 def run(ctx):
-    explore(ctx, ctx.subrng("expl"), ctx.budget(1600, 20000))
+    explore(ctx, ctx.subrng("expl"), ctx.budget(1500, 20000))
+    if not ctx.violations:
+        rule_stream(ctx, ctx.subrng("rules"), ctx.budget(1600, 20000))
 
 
 def search(ctx):
